@@ -27,6 +27,8 @@ RULE = (
     "(thorough 4) atoms out of {letter, space, back-ticked word(s), lone back-tick, escaped own quote, other quote, escaped "
     "back-slash, ')', '}'} in both quote styles in five call/brace templates: literal contents (ast constants) must be "
     "preserved by parsing and received unchanged by the called function at materialization; "
+    "(a') each of the 29 characters matched by \\s in the BMP alone at each boundary (and at all) of 13 sentences; (b'') 22 "
+    "names that read like numeric literals in all seven forms, parsed and materialized without implicit intercept; "
     "(d) every string of C14's character enumerations that tokenizes.  Non-trivial = a variant that differs from the "
     "baseline rendering (a, c), a name containing a non-word character (b), a string with >= 2 tokens (d)."
 )
